@@ -78,6 +78,18 @@ def closure_items(prog, root, cache={}):
     return out
 
 
+def empty_tests_on_store_param(fn):
+    """is_empty() calls whose receiver is the function's `&[u8]` parameter (the store bytes), identified by type, not by name"""
+    params = [k for k in range(1, fn.argc + 1) if re.fullmatch(r"&('\S+ )?\[u8\]", fn.local_ty(k) or '')]
+    out = []
+    for bi, t in fn.calls():
+        if re.search(r'is_empty$', t['fd']) and t['args']:
+            for o in fn.origins(t['args'][0]):
+                if o[0] in ('arg', 'local') and o[1] in params:
+                    out.append(bi)
+    return out
+
+
 def ok_returns(fn):
     return [bi for bi, b in enumerate(fn.B) for dst, rv in b['s'] if dst['l'] == 0 and not dst['p'] and rv['k'] == 'agg' and rv.get('variant') == 'Ok']
 
@@ -135,7 +147,7 @@ def run(ctx):
     if ctx.require(prog.has(inj), inj):
         fn = prog.fn(inj)
         ctx.analysed(inj, len(list(fn.calls())))
-        data_empty = [bi for bi, t in fn.calls() if re.search(r'is_empty$', t['fd']) and T.call_term(fn, bi) == 'is_empty(data)']
+        data_empty = empty_tests_on_store_param(fn)
         ctx.floor('data.is_empty() tests in inject_c2pa', len(data_empty), 1, rule='C07-D4')
 
         class G:
@@ -173,7 +185,7 @@ def run(ctx):
         rd = [n for n in (AH + 'id3_helper::get_manifest_pos', AH + 'id3_helper::read_cai_from_id3', AH + 'id3_helper::read_cai_id3') if prog.has(n)]
         rdr, _p = prog.reach_from(['<%smp3_io::Mp3IO as asset_io::CAIReader>::read_cai' % AH])
         ctx.ob('C07-D4', 'id3_helper', 'reader acceptance predicate', 'is_c2pa_mime_type (same as the strip filter)', (AH + 'id3_helper::is_c2pa_mime_type') in rdr)
-        emp = [bi for bi, t in fn.calls() if re.search(r'is_empty$', t['fd']) and T.call_term(fn, bi) == 'is_empty(store_bytes)']
+        emp = empty_tests_on_store_param(fn)
 
         class G2:
             want = 'false'; name = 'store_bytes.is_empty() = false'
